@@ -595,9 +595,11 @@ class PolygonTensor(PolytopeTensor):
     def angles(self) -> list[npt.NDArray[np.float64]]:
         """The interior angles of the polygon."""
         result = []
-        a = cast(SegmentTensor, self.edges[-1])
-        for b in self.edges:
-            b = cast(SegmentTensor, b)
+        edges = self.edges
+        # the edges are indexed along the edge axis (the axis in front of it belongs to the polygons of a collection)
+        a = cast(SegmentTensor, edges[..., -1, :, :])
+        for i in range(self.shape[-2]):
+            b = cast(SegmentTensor, edges[..., i, :, :])
             result.append(angle(a.vertices[1], a.vertices[0], b.vertices[1]))
             a = b
 
